@@ -78,17 +78,21 @@ def _reaping_run_conversion_loop(*a, **k):
             _cu.Thread = _threading.Thread
         mine, _TrackedQueue.created[mark:] = _TrackedQueue.created[mark:], []
         poisoned = True
+        n_workers = max(1, len(_TrackedThread.created[tmark:]))
         for q in mine:
-            try:
-                q.put_nowait(_POISON)
-            except Exception:
-                poisoned = False
+            # one poison item per worker thread that may be blocked on this queue (a changed library may start several)
+            for _ in range(n_workers):
+                try:
+                    q.put_nowait(_POISON)
+                except Exception:
+                    poisoned = False
+                    break
         # wait until the reaped workers are gone: a worker that wakes up later would run its last (failing) statement
         # inside whatever the NEXT case has substituted for zfpy / the file (the C16 harness substitutes both)
         mine_t, _TrackedThread.created[tmark:] = _TrackedThread.created[tmark:], []
         for t in mine_t:
             if t is not _threading.current_thread() and t.ident is not None:
-                t.join(10 if poisoned else 0.5)
+                t.join(3 if poisoned else 0.5)
 
 
 _prev_excepthook = _threading.excepthook
